@@ -2,6 +2,7 @@ SPEC = {
     'module': 'EV.Props.C15',
     'theorems': ['EV.Index.C15_keep', 'EV.Index.C15_window', 'EV.Index.C15_prune', 'EV.Index.C15_refuse',
                  'EV.Index.C15_counterexample_falling_daemon_height'],
+    'claims': {'violation_tags': ['window']},
     'suites': ['index'],
     'design_ref': 'DESIGN.md §6 C15',
     'assumptions': [
